@@ -116,7 +116,7 @@ pub fn run(args: &Args) -> Report {
     } else {
         let n = if args.thorough { 30000 } else { 1500 };
         for i in 0..n {
-            let opts = GenOpts { opt_prob: [10, 30, 60][i % 3], max_repeat: 1 + i % 3, specials: i % 4 == 1, ..GenOpts::default() };
+            let opts = GenOpts { opt_prob: [10, 30, 60][i % 3], max_repeat: 1 + i % 3, specials: i % 4 == 1, dup_names: i % 5 == 2, ..GenOpts::default() };
             let toks = gen_document(&g, &mut rng, opts);
             let layout = [Layout::Canonical, Layout::Wild, Layout::Dense][(i / 3) % 3];
             let crlf = i % 7 == 3;
